@@ -32,7 +32,9 @@ extern int vr_failed;
 
 #else /* CBMC */
 
-#define V_IN(var) { __typeof__(var) v_in_tmp_; var = v_in_tmp_; }
+/* whole-object havoc: (an uninitialised local of union type is NOT a consistent nondet value
+ * in CBMC 6.11 - its members disagree - so inputs are havocked in place) */
+#define V_IN(var) __CPROVER_havoc_object(&(var))
 #define V_ASSUME(c) __CPROVER_assume(c)
 #define V_ASSERT(c, msg) __CPROVER_assert((c), msg)
 #define V_CANARY() __CPROVER_assert(0, "vacuity canary: harness end reachable")
